@@ -79,7 +79,12 @@ def build_script(sc, system=None):
     if "isp" in sc:
         kw["init_state_processing"] = sc["isp"]
     us = uq.mk_sys(tuple(sc.get("units", sc["system"].get("units", si.DEFAULT))))
-    return RDScript(system, list(sc.get("t_sample", [0])), units_system=us, **kw)
+    ts = sc.get("t_sample", [0])
+    if isinstance(ts, dict):      # {"values": [...], "unit": "ms"}: an explicit quantity array
+        ts = UnitArray([float(v) for v in ts["values"]], ts["unit"])
+    else:
+        ts = list(ts)
+    return RDScript(system, ts, units_system=us, **kw)
 
 
 def traj_arrays(out):
